@@ -366,6 +366,9 @@ func (e *Engine) evidence(prop, tier string, seed int, rr *runResult, extra *ext
 	for _, a := range extra.assumptions {
 		assum[a] = true
 	}
+	for a := range e.assumptionsUsed {
+		assum[a] = true
+	}
 	var as []string
 	for a := range assum {
 		as = append(as, a)
@@ -418,6 +421,24 @@ func (e *Engine) evidence(prop, tier string, seed int, rr *runResult, extra *ext
 		"samples":                   samples,
 		"integers":                  "machine integers at exact width (bit-vectors); nothing is treated as mathematical",
 	}
+	// the slowest proofs of this run: the margin to the per-obligation timeout is what keeps the check from alarming on load
+	type slow struct {
+		Obligation string  `json:"obligation"`
+		Secs       float64 `json:"secs"`
+		Solver     string  `json:"solver"`
+	}
+	var sl []slow
+	for _, o := range rr.obls {
+		if o.Direct || o.Kind == "cover" || o.Kind == "canary" || !hasProp(o.Props, prop) {
+			continue
+		}
+		sl = append(sl, slow{o.Name, round2(o.Res.Secs), o.Res.Solver})
+	}
+	sort.Slice(sl, func(i, j int) bool { return sl[i].Secs > sl[j].Secs })
+	if len(sl) > 5 {
+		sl = sl[:5]
+	}
+	cov["slowest_obligations"] = sl
 	for k, v := range extra.coverage {
 		cov[k] = v
 	}
